@@ -84,6 +84,18 @@ theorem comm_error (lvl : Int) (app : App) (s : St) (b : Bytes) (st : Nat) (wf :
   rw [idle_errorReply lvl app s b st wf]
   exact idle_step lvl app _ _ (chunkWF_extend s b wf) h
 
+theorem refuseWith_extend (s : St) (b : Bytes) (x : Option Nat) : refuseWith (extend s b) x = refuseWith s x := by
+  cases x with
+  | some st => exact errorReply_extend s b st
+  | none => rfl
+
+theorem comm_refuse (lvl : Int) (app : App) (s : St) (b : Bytes) (x : Option Nat) (wf : ChunkWF s)
+    (h : idleStep lvl app (extend s b) = some (refuseWith s x)) :
+    idle lvl app (extend s b) = idle lvl app (recv (refuseWith s x) b) := by
+  cases x with
+  | some st => exact comm_error lvl app s b st wf h
+  | none => exact comm_terminal lvl app s _ b wf h (Or.inl rfl)
+
 omit P L in
 theorem bodyStep_term (lvl : Int) (u : St) (n : Nat) (hc : u.chunked = true)
     (ha : chunkAct lvl u.cur u.off u.buf = .term n) :
@@ -314,6 +326,12 @@ theorem step_comm (lvl : Int) (app : App) (s s' : St) (b : Bytes) (wf : ChunkWF 
       simp only [hp] at h; cases h
       apply comm_terminal lvl app s _ b wf _ (Or.inr rfl)
       unfold idleStep; simp only [extend, hs, L.head_bad_append _ b hp]
+    | refuse x =>
+      simp only [hp] at h; cases h
+      apply comm_refuse lvl app s b x wf
+      have := L.head_refuse_append _ b x hp
+      unfold idleStep; simp only [extend, hs, this]
+      exact congrArg some (refuseWith_extend s b x)
     | ok hd rest =>
       simp only [hp] at h; cases h
       apply comm_simple lvl app s _ b wf _ (by simp) (by simp)
@@ -425,6 +443,12 @@ theorem step_comm (lvl : Int) (app : App) (s s' : St) (b : Bytes) (wf : ChunkWF 
       simp only [hp] at h; cases h
       apply comm_terminal lvl app s _ b wf _ (Or.inr rfl)
       unfold idleStep; simp only [extend, hs, L.trailers_bad_append _ b hp]
+    | refuse x =>
+      simp only [hp] at h; cases h
+      apply comm_refuse lvl app s b x wf
+      have := L.trailers_refuse_append _ b x hp
+      unfold idleStep; simp only [extend, hs, this]
+      exact congrArg some (refuseWith_extend s b x)
     | ok fs rest =>
       simp only [hp] at h; cases h
       apply comm_simple lvl app s _ b wf _ (by simp) (by simp)
